@@ -216,7 +216,7 @@ def _cell(cell):
 
 def cells(tier):
     if tier == "quick":
-        patterns = [(1,), (1, 1), (1, 2), (1, 1, 2), (1, 2, 1), (0, 1, 1), (1, 2, 2, 1)]
+        patterns = [(1,), (1, 1), (1, 2), (1, 1, 2), (1, 2, 1), (0, 1, 1), (1, 2, 2, 1), (1, 1, 1, 2)]  # the last: unbalanced groups
         fts = {"numpy": ["fb", "npz"], "concurrent": ["fb"], "async": ["fb", "npz"], "rust": ["fb"], "tfdataset": ["fb", "npz"],
                "tfdataset-tfrec": ["fb"], "numpy-tfrec": ["fb"], "concurrent-tfrec": ["fb"]}
     else:
